@@ -1036,7 +1036,7 @@ func (fx *FnExec) instr(in ssa.Instruction) error {
 	case *ssa.MakeSlice:
 		if mutSliceCandidate(x) {
 			n := fx.val(x.Len).one()
-			fx.oblige("makeslice", "", sLe("0", n), "make: non-negative length", x.Pos())
+			fx.oblige("makeslice", "", fx.makeSliceOk(x, n), "make: 0 <= len <= cap", x.Pos())
 			m := &mslice{name: x.Name(), len: n, et: elemOf(x.Type())}
 			for _, l := range fx.e.leaves(m.et) {
 				nm := fx.msliceLeafName(m, l.Path)
@@ -1051,7 +1051,7 @@ func (fx *FnExec) instr(in ssa.Instruction) error {
 		}
 		if isByteSlice(x.Type()) {
 			n := fx.val(x.Len).one()
-			fx.oblige("makeslice", "", sLe("0", n), "make: non-negative length", x.Pos())
+			fx.oblige("makeslice", "", fx.makeSliceOk(x, n), "make: 0 <= len <= cap", x.Pos())
 			name := "L.buf." + x.Name()
 			fx.e.heapSort[name] = "Str"
 			fx.localNames[name] = true
@@ -1065,7 +1065,7 @@ func (fx *FnExec) instr(in ssa.Instruction) error {
 		for _, l := range fx.e.leaves(et) {
 			out.L = append(out.L, zeroOfSort(arraySort("Int", l.Sort)))
 		}
-		fx.oblige("makeslice", "", sLe("0", n), "make: non-negative length", x.Pos())
+		fx.oblige("makeslice", "", fx.makeSliceOk(x, n), "make: 0 <= len <= cap", x.Pos())
 		fx.set(x, out)
 	case *ssa.MakeMap:
 		r := fx.alloc(&fx.cur)
@@ -1837,4 +1837,15 @@ func (fx *FnExec) assumeTypeInvIn(v Val, h *Heap) {
 	if t, err := fx.typeInvFact(v, h); err == nil && t != tTrue {
 		fx.assume(sImp(sNot(fx.isNil(v)), t))
 	}
+}
+
+// makeSliceOk: make([]T, n) panics for n < 0; make([]T, n, c) also for c < n (so for a negative capacity)
+func (fx *FnExec) makeSliceOk(x *ssa.MakeSlice, n string) string {
+	ok := sLe("0", n)
+	if x.Cap != nil {
+		if _, same := x.Cap.(*ssa.Const); !same || x.Cap != x.Len {
+			ok = sAnd(ok, sLe(n, fx.val(x.Cap).one()))
+		}
+	}
+	return ok
 }
